@@ -814,6 +814,10 @@ func c13PJudge(ctx *vh.Ctx, c *c13Case, model *c13Model, impl *c13Obs, class str
 			pathOK = vh.CanonEq(impl.Path, alt)
 		}
 	}
+	if pathOK && !vh.CanonEq(impl.TextPath, impl.Path) {
+		ctx.Res.Disagree(vh.Disagreement{Signature: c13PSig(c, "textPath"),
+			What: fmt.Sprintf("the text of the returned error names the node path %v, its path field %v", impl.TextPath, impl.Path), Case: c, Model: model, Impl: impl})
+	}
 	if !pathOK {
 		ctx.Res.Disagree(vh.Disagreement{Signature: c13PSig(c, "nodePath"),
 			What: fmt.Sprintf("node path %v on the implementation, %v in the model", impl.Path, model.Path), Case: c, Model: model, Impl: impl})
